@@ -93,7 +93,37 @@ func cmdRecord(args []string) int {
 		for _, d := range sess.BuildDiffs {
 			res.diverge("builder: %s", d)
 		}
+		extendAt, prior := 0, [][]byte{}
 		for c := 0; c < *calls; c++ {
+			// half-way through, every other session extends its policy with rule calls drawn from another random recipe: a
+			// policy that has been used is still a policy under construction
+			if c == *calls/2 && c > 0 && s%2 == 1 && len(splitProps(*fixed)) == 0 {
+				extra := GenRecipe(rng, GenOpts{NoUnsafe: *noUnsafe, NoStyles: *noStyles})
+				k, reported := 0, len(sess.BuildDiffs)
+				extendAt = len(sess.Recipe)
+				// (always including element patterns the policy did not have while it was being used)
+				for _, pat := range genPats {
+					if _, has := sess.Model.PatAttrs[pat]; !has && k < 2 {
+						if k == 0 {
+							tw.Extend(sess, Call{M: "AllowElementsMatching", Pat: pat})
+						} else {
+							tw.Extend(sess, Call{M: "AllowAttrs", Attrs: []string{"title", "class"}, Scope: "pat", Pat: pat, NoAttrs: false})
+						}
+						k++
+					}
+				}
+				k = 0
+				for _, xc := range extra[1:] {
+					if k < 3 && isRuleCall(xc.M) {
+						tw.Extend(sess, xc)
+						k++
+					}
+				}
+				for _, d := range sess.BuildDiffs[reported:] {
+					res.diverge("builder: %s", d)
+				}
+				recipe = sess.Recipe
+			}
 			_, b := GenDoc(rng, sess.Model, kindList[rng.Intn(len(kindList))])
 			first := tw.Lines + 1
 			if permissive != nil {
@@ -106,6 +136,11 @@ func cmdRecord(args []string) int {
 			res.Cases++
 			x := NewExec(recipe, sess.Model, sess.Real, b, cr.Output, cr.Rec)
 			x.Dur = dur
+			if extendAt > 0 {
+				x.ExtendAt, x.Prior = extendAt, prior
+			} else if len(prior) < 40 {
+				prior = append(prior, b)
+			}
 			if cr.Rec.Panic != "" {
 				res.diverge("panic %s on %q", cr.Rec.Panic, b)
 			}
